@@ -5,7 +5,7 @@ import vlib
 
 PROP = dict(
     id="C07",
-    corr=["Model/FsmCorr.vo", "Model/C07Corr.vo", "Model/C07Table.vo", "Model/C20Corr.vo", "Model/C07Watch.vo"],
+    corr=["Model/FsmCorr.vo", "Model/C07Corr.vo", "Model/C07Table.vo", "Model/C20Corr.vo", "Model/C07Watch.vo", "Model/C07Lwk.vo"],
     design_ref="DESIGN.md §6 C07",
     technique="Coq: invariant over all crash histories of the maker state machines, carried by a generic engine rule indexed by an accumulator folded over the effects (what the wallet has broadcast, whether a durable write followed, whether a spend was broadcast); tree-aware rule for action trees; reflective boolean checks on the generated state tables proved sound for arbitrary tables and decided by vm_compute; step-level vm_compute correspondence against the real SwapService/FSM incl. simulated process crashes at a chosen effect (real bbolt file reopened, RecoverSwaps); monitor on observed scenarios",
     level_text="Machine-checked for both maker tables generated from the code (and for any table passing the check), every history with crashes after any effect and restarts, every environment and peer behaviour: once the wallet has broadcast opening transaction o, the last durable record and every later store write name o (txid, announced vout, tx hex); that record is in a finished state only if the claim-paid notification was delivered or a spending transaction was broadcast; OnCsvPassed in every waiting state broadcasts the CSV refund; every waiting state's action (entry and recovery) registers the CSV watch on the recorded (txid, vout). The full statement is refuted by one known pattern (crash or failed store write between the wallet broadcast and the next durable write, D7): Findings/F_C07_2.v; it is excluded by the visible hypothesis no_orphan and reproduced on the real code every run. D6 (error after the wallet broadcast cancels with no record) was repaired in the repo; Findings/F_C07_1.v keeps the pre-fix witness.",
@@ -89,6 +89,20 @@ def run(ctx):
     ctx.rules.append(RULE)
     ctx.absorb(res, "fsm", signature=sig, describe=describe)
     run_watch(ctx, 200 if ctx.quick else 3000)
+    run_lwk(ctx)
+
+
+def run_lwk(ctx):
+    """LWK wallet adapter: a transaction that was broadcast is reported to the caller (known finding: not when the
+    raw-transaction fetch fails afterwards)"""
+    d = ctx.harness("lwkwallet", outdir=ctx.work + "/lwkwallet")
+    if d is None:
+        return
+    res = vlib.eval_cases(d)
+    ctx.rules.append("LWK wallet family: the real LWKRpcWallet.CreateAndBroadcastTransaction against a fake lwk JSON-RPC server and a fake electrum client, a failure injected at fund / sign / broadcast / raw-transaction fetch / nowhere; observed: transactions broadcast, error returned, txid and hex reported")
+    ctx.absorb(res, "lwkwallet", signature=lambda c: "lwk:%s-fails-after-broadcast" % c.get("failure_injected_at"),
+               mismatch_is_violation=False,
+               describe=lambda c: "LWKRpcWallet.CreateAndBroadcastTransaction returned an error although the opening transaction was broadcast (failure injected at: %s): the maker cancels without a record of the output it funded" % c.get("failure_injected_at"))
 
 
 def run_watch(ctx, n, outdir=None):
